@@ -498,8 +498,9 @@ class Table(JupyterMixin):
                 if (self.min_width is None or self.expand)
                 else min(self.min_width - extra_width, max_width)
             )
-            pad_widths = ratio_distribute(_max_width - table_width, widths)
-            widths = [_width + pad for _width, pad in zip(widths, pad_widths)]
+            if widths:
+                pad_widths = ratio_distribute(_max_width - table_width, widths)
+                widths = [_width + pad for _width, pad in zip(widths, pad_widths)]
 
         return widths
 
